@@ -5,7 +5,8 @@ of a fresh object replaying only that object's own history; ASan + LeakSanitizer
 import os, sys, json, importlib.util
 sys.path.insert(0, os.path.dirname(os.path.dirname(os.path.abspath(__file__))))
 from vlib.common import *
-from vlib import build, packcheck
+from vlib import build, packcheck, mkimg, sqfsck
+from vlib.mkimg import D, F
 
 KINDS = ["gzip-compress", "gzip-uncompress", "xz-compress", "xz-uncompress", "lz4-compress", "lz4-uncompress", "zstd-compress", "zstd-uncompress",
          "lzma-compress", "lzma-uncompress", "frag-table", "id-table", "meta-reader", "dir-reader", "dir-reader-dot", "data-reader", "xattr-reader", "file", "xattr-writer"]
@@ -18,8 +19,21 @@ def load_c10():
     return m
 
 
+def big_inode_table_image():
+    """MKIMG image whose (uncompressed) inode table is larger than 64 KiB: inode references of the late directories need more than 32 bits"""
+    many = [(b"e%04d" % i, D([], tag="e%d" % i), None) for i in range(2300)]
+    root = D([(b"f", F(b"hello", tag="f"), None), (b"many", D(many, tag="many"), None)], tag="root")
+    img, _ = mkimg.build(root)
+    im = sqfsck.load(img)
+    if im.violations:
+        raise RuntimeError("MKIMG produced an invalid image: %s" % im.violations[:2])
+    if max(n["ref"] for n in im.tree.values()) < (1 << 32):
+        raise RuntimeError("big image has no inode reference beyond 32 bits")
+    return img
+
+
 def run_kind(a):
-    exe, img, opsf, kind, P, Q = a
+    exe, img, opsf, kind, P, Q = a[:6]
     env = {"ASAN_OPTIONS": ASAN_ENV.replace("detect_leaks=0", "detect_leaks=1"), "LSAN_OPTIONS": "exitcode=97"}
     r = run_tool([exe, img, opsf, kind, str(P), str(Q)], timeout=2400, env=env)
     try:
@@ -48,16 +62,29 @@ def main():
         ops, mops, _ = c10.derive_ops(open(img, "rb").read())
         opsf = os.path.join(sd, "ops.txt")
         open(opsf, "w").write("\n".join(ops + mops[:3]) + "\n")
+        big = os.path.join(sd, "big.sqfs")
+        bdata = big_inode_table_image()
+        open(big, "wb").write(bdata)
+        bops, bmops, _ = c10.derive_ops(bdata)
+        bopsf = os.path.join(sd, "ops_big.txt")
+        open(bopsf, "w").write("\n".join(bops + bmops[:3]) + "\n")
+        IMGS = {"v1": (img, opsf), "big-inode-table": (big, bopsf)}
         if cr.replay:
             c = json.load(open(os.path.join(cr.replay, "case.json")))
-            k, r, j = run_kind((exe, img, opsf, c["kind"], c["P"], c["Q"]))
+            ii, oo = IMGS[c.get("image", "v1")]
+            k, r, j = run_kind((exe, ii, oo, c["kind"], c["P"], c["Q"]))
             print(r.out.decode(), r.err.decode("latin1")[-3000:])
             return 1
         P, Q = (1, 2) if cr.quick else (2, 3)
         tot = dict(histories=0, ops_executed=0)
         per = []
-        for kind, r, j in pmap(run_kind, [(exe, img, opsf, k, P, Q) for k in KINDS]):
-            case = {"case.json": json.dumps(dict(kind=kind, P=P, Q=Q))}
+        jobs = [(exe, img, opsf, k, P, Q, "v1") for k in KINDS] + [(exe, big, bopsf, k, P, Q, "big-inode-table") for k in ("meta-reader", "dir-reader", "dir-reader-dot")]
+        res = pmap(run_kind, jobs)
+        for job, (kind, r, j) in zip(jobs, res):
+            iname = job[6]
+            if iname != "v1":
+                kind = kind + "@" + iname
+            case = {"case.json": json.dumps(dict(kind=job[3], P=P, Q=Q, image=iname))}
             rp = "python3 /verif/checks/C19.py --replay \"$PWD\""
             if r.timeout:
                 cr.violation("C19|hang|" + kind, "exploration of %s did not finish" % kind, files=case, replay_sh=rp)
@@ -75,6 +102,7 @@ def main():
                 continue
             tot["histories"] += j["histories"]
             tot["ops_executed"] += j["ops_executed"]
+            j["kind"] = kind
             per.append({k: j[k] for k in ("kind", "ops", "histories", "ops_executed", "mismatches")})
             if j["mismatches"]:
                 cr.violation("C19|%s|%s" % (kind, j["first"].split(";")[0]), "object kind %s: %d mismatching histories; first: %s" % (kind, j["mismatches"], j["first"]), files=case, replay_sh=rp)
@@ -82,7 +110,8 @@ def main():
             cr.sample(p)
         cr.coverage.update(states=len(per), transitions=tot["ops_executed"], traces_validated_against_impl=tot["histories"], evaluations=tot["histories"],
                            distinct_nontrivial=tot["histories"], kinds=per, pre_copy_depth=P, post_copy_depth=Q,
-                           rule="Object kinds: compressors gzip/xz/lz4/zstd/lzma x {compress, uncompress} (do_block on 3 inputs, get_configuration), fragment table (append, set, lookup x2, "
+                           rule="Images: a gensquashfs image (all kinds) and an independently written image whose inode table exceeds 64 KiB, so that inode references need more than 32 bits "
+                                "(metadata and directory readers). Object kinds: compressors gzip/xz/lz4/zstd/lzma x {compress, uncompress} (do_block on 3 inputs, get_configuration), fragment table (append, set, lookup x2, "
                                 "get_size), id table (id_to_index x2, index_to_id x2), metadata reader (seek+read), directory reader with flags 0 and DOT_ENTRIES (get_inode, readdir, "
                                 "resolve_path), data reader (read, get_block, get_fragment, stream), xattr reader (read_all), read-only file (read_at x2, get_size; copying a writable file must "
                                 "fail), xattr writer (3 begin/add/end sequences, flush to a memory file). Per kind: every pre-copy history of length <= P over its alphabet, copy, every sequence of "
